@@ -6,6 +6,8 @@ import (
 
 	mocker "github.com/tencent/goom"
 	"github.com/tencent/goom/verifharness/hxlib"
+	dupa "github.com/tencent/goom/verifharness/zoo/dupa/dup"
+	dupb "github.com/tencent/goom/verifharness/zoo/dupb/dup"
 	mz "github.com/tencent/goom/verifharness/zoo/methzoo"
 )
 
@@ -92,6 +94,13 @@ func c06Targets() []c06Target {
 		{"Pkg.ExportStruct(*G[go.shape.string]).Method(weight).Apply(const)", 27, nil, func(b *mocker.Builder, s *[]int) {
 			b.Pkg(c06Pkg).ExportStruct("*G[go.shape.string]").Method("weight").Apply(func(g *mz.G[string], x int) int { return -2600000 })
 		}, 0},
+		// two struct types whose package NAME and type name coincide ("dup.T") but which live in different packages
+		{"Struct(&dupa/dup.T).Method(Get)", 30, nil, func(b *mocker.Builder, s *[]int) {
+			b.Struct(&dupa.T{}).Method("Get").Apply(func(t *dupa.T, x int) int { *s = append(*s, t.K); return 30*100000 + t.K*100 + x })
+		}, 0},
+		{"Struct(&dupb/dup.T).Method(Get)", 31, nil, func(b *mocker.Builder, s *[]int) {
+			b.Struct(&dupb.T{}).Method("Get").Apply(func(t *dupb.T, x int) int { *s = append(*s, t.K); return 31*100000 + t.K*100 + x })
+		}, 0},
 		// ... and a callback, which must see the receiver as its first argument
 		{"Struct(&G[string]).Method(Other).Apply", 20, nil, func(b *mocker.Builder, s *[]int) {
 			b.Struct(&mz.G[string]{}).Method("Other").Apply(func(g *mz.G[string], x int) int { *s = append(*s, g.K); return 19*100000 + g.K*100 + x })
@@ -130,7 +139,7 @@ func c06(args []string) int {
 		plan = append(plan, []int{i})
 	}
 	typeOf := func(n string) string {
-		for _, t := range []string{"G[", "&A", "A{", "(*A)", "&B", "B{", "*c"} {
+		for _, t := range []string{"G[", "&A", "A{", "(*A)", "&B", "B{", "*c", "dup.T"} {
 			if strings.Contains(n, t) {
 				return t[len(t)-2:]
 			}
